@@ -5,6 +5,8 @@ import GqlVerif.Driver.Decode
 import GqlVerif.Driver.Render
 import GqlVerif.Driver.ExtOps
 import GqlVerif.Driver.Messages
+import GqlVerif.Driver.Encode
+import GqlVerif.Model.Transformer
 import GqlVerif.Spec.TypeSystem
 open Lean Gql Gql.Driver
 
@@ -86,6 +88,32 @@ def handle (st : DState) (j : Json) : D (DState × Json) := do
         let sorted := (groups.toArray.qsort (fun a b => a.1 < b.1)).toList
         Json.arr (sorted.map fun (k, fs) => Json.arr #[(k : Json), Json.arr (fs.map Json.str).toArray]).toArray
     pure (st, Json.mkObj [("outcome", "ok"), ("results", Json.arr res.toArray)])
+  | "transform" =>
+    let d ← document (← field j "doc")
+    let hk ← field j "hooks"
+    let probe (k : String) : D (Option Probe) := do
+      match hk.getObjVal? k with
+      | .ok (.arr a) => pure (some ⟨← nat (← at' a 0), ← nat (← at' a 1), ← nat (← at' a 2)⟩)
+      | _ => pure none
+    let pDef ← probe "definition"
+    let pOp ← probe "operation"
+    let pFrag ← probe "fragment"
+    let pSel ← probe "selectionSet"
+    let pField ← probe "field"
+    let pSpread ← probe "spread"
+    let pInline ← probe "inline"
+    let pDir ← probe "directive"
+    let pArg ← probe "argument"
+    let pVal ← probe "value"
+    let pVar ← probe "varDef"
+    let hooks : Hooks := ⟨pDef, pOp, pFrag, pSel, pField, pSpread, pInline, pDir, pArg, pVal, pVar⟩
+    let r := transformDocument hooks d
+    let hookName : HookId → String
+      | .definition => "definition" | .operation => "operation" | .fragment => "fragment" | .selectionSet => "selectionSet"
+      | .field => "field" | .spread => "spread" | .inline => "inline" | .directive => "directive" | .argument => "argument"
+      | .value => "value" | .varDef => "varDef"
+    pure (st, Json.mkObj [("keep", r.1.shouldKeep), ("doc", jDocument (r.1.getD d)),
+      ("log", Json.arr (r.2.map fun (e : LogEntry) => Json.arr #[Json.str (hookName e.1), (e.2 : Json)]).toArray)])
   | "svisit" =>
     match schemaVisit st.schema with
     | none => pure (st, Json.mkObj [("outcome", "panic")])
